@@ -41,6 +41,7 @@
 #include "vp.hpp"
 
 #include "mpt_c.hpp"
+#include "ref/cobs.hpp"
 
 #include <climits>
 #include <type_traits>
@@ -1909,11 +1910,144 @@ struct CxxEnc {
   }
 };
 
+// ---- mpt::encode_array with an encoder (COBS), round 8 ------------------------------------------------------------------
+// push(len, data) adds payload to the open message, push(0, 0) terminates it (writes the delimiter). Copies taken at drawn
+// times share the data array. Oracle: every OTHER object reads exactly the bytes and counters it had before; the object
+// itself shows in data() one well formed frame per terminated message which the reference decoder (engine/ref/cobs.hpp)
+// turns back into the pushed bytes; a refused call changes nothing. (Framing as such is C01's subject.)
+struct CxxEncCoded {
+  struct Snap { std::vector<uint8_t> bytes; size_t done = 0, scratch = 0; bool operator==(const Snap &o) const { return bytes == o.bytes && done == o.done && scratch == o.scratch; } };
+  struct Model { std::vector<std::vector<uint8_t> > msgs; std::vector<uint8_t> cur; Snap snap; };
+  Ctx &c;
+  enum { NA = 3 };
+  encode_array *e[NA];
+  Model m[NA];
+  Inject inj;
+  explicit CxxEncCoded(Ctx &cc) : c(cc) { for (auto &x : e) x = 0; }
+
+  Snap snap(int i) {
+    Snap s;
+    const array::content *d = e[i]->_d.data();
+    if (d) s.bytes.assign((const uint8_t *)d->data(), (const uint8_t *)d->data() + d->length());
+    s.done = e[i]->_state.done;
+    s.scratch = e[i]->_state.scratch;
+    return s;
+  }
+  std::string desc(int i) {
+    char t[160];
+    const array::content *d = e[i]->_d.data();
+    snprintf(t, sizeof t, "e%d{buffer %zu bytes%s, done=%zu scratch=%zu | model %zu messages, %zu open bytes}", i, d ? d->length() : 0, e[i]->_d.shared() ? " shared" : "", e[i]->_state.done, e[i]->_state.scratch,
+             m[i].msgs.size(), m[i].cur.size());
+    return t;
+  }
+  void verify(const char *op, int target, bool refused) {
+    inj.disarm(c);
+    for (int i = 0; i < NA; i++) {
+      Snap now = snap(i);
+      if (i != target || refused) {
+        if (!(now == m[i].snap))
+          c.fail(vtag(refused && i == target ? "refused-changed" : "other-changed", (std::string("encode_array.") + op).c_str()).c_str(),
+                 "after %s on e%d: %s held %zu bytes %s (done %zu, scratch %zu) before and holds %zu bytes %s (done %zu, scratch %zu) now", op, target, desc(i).c_str(), m[i].snap.bytes.size(),
+                 hex(m[i].snap.bytes.data(), m[i].snap.bytes.size(), 20).c_str(), m[i].snap.done, m[i].snap.scratch, now.bytes.size(), hex(now.bytes.data(), now.bytes.size(), 20).c_str(), now.done, now.scratch);
+        continue;
+      }
+      // the target: finished bytes = one frame per terminated message
+      VP_CHECK(c, now.done + now.scratch <= now.bytes.size(), vtag("encode-accounting", (std::string("encode_array.") + op).c_str()).c_str(), "after %s: %s: done + scratch exceed the array length", op, desc(i).c_str());
+      span<const uint8_t> f = e[i]->data();
+      std::vector<uint8_t> fin(f.begin(), f.begin() + f.size()), out;
+      size_t k = 0, start = 0;
+      for (size_t p = 0; p < fin.size(); p++) {
+        if (fin[p]) continue;
+        bool ok = k < m[i].msgs.size() && ref::decode(ref::Cobs, fin.data() + start, p - start, out) == ref::WellFormed && out == m[i].msgs[k];
+        if (!ok) c.fail(vtag("target-mismatch", (std::string("encode_array.") + op).c_str()).c_str(), "after %s: frame %zu of %s (%s) does not decode to message %zu of the %zu pushed ones", op, k, desc(i).c_str(),
+                        hex(fin.data() + start, p - start, 20).c_str(), k, m[i].msgs.size());
+        ++k;
+        start = p + 1;
+      }
+      // (bytes behind the last delimiter are finished blocks of the message that is still open)
+      VP_CHECK(c, k == m[i].msgs.size(), vtag("target-mismatch", (std::string("encode_array.") + op).c_str()).c_str(), "after %s: %s shows %zu complete frames, %zu messages were terminated", op, desc(i).c_str(), k, m[i].msgs.size());
+      m[i].snap = now;
+    }
+    if (c.verbose()) for (int i = 0; i < NA; i++) c.logf("      %s", desc(i).c_str());
+  }
+  void run() {
+    c.label("cxx:encode_array");
+    c.logf("C++ API history: mpt::encode_array with the COBS encoder");
+    data_encoder_t enc = mpt_message_encoder(MPT_ENUM(EncodingCobs));
+    VP_CHECK(c, enc, "no-encoder", "mpt_message_encoder(EncodingCobs) is NULL");
+    for (int i = 0; i < NA; i++) { e[i] = new encode_array(enc); m[i].snap = snap(i); }
+    verify("create", -1, false);
+    unsigned nops = 0;
+    while (c.more() && nops++ < 40) {
+      inj.disarm(c);
+      int i = (int)c.pick(NA), j = (int)c.pick(NA);
+      encode_array &x = *e[i];
+      unsigned op = inj.select(c, {8, 8, 6, 3});
+      inj.arm(c, op < 2);
+      bool sh = x._d.shared();
+      switch (op) {
+        case 0: {  // payload
+          size_t len = c.near({1, 2, 30, 31, 64}, 120);
+          if (!len) len = 1;
+          std::vector<uint8_t> d(len);
+          uint8_t sd = c.u8();
+          for (size_t q = 0; q < len; q++) d[q] = (uint8_t)((sd + q) % 5 ? sd + 3 * q : 0);   // zeros inside the payload
+          c.logf("  e%d.push(%zu, %s)   [%s]", i, len, hex(d.data(), d.size(), 8).c_str(), desc(i).c_str());
+          if (sh) { c.label("cxx-nt:write-while-shared"); c.nontrivial(); }
+          ssize_t r = x.push(len, d.data());
+          c.logf("    = %zd", r);
+          if (r >= 0) { VP_CHECK(c, (size_t)r <= len, "cxx-push-count", "push(%zu) consumed %zd", len, r); m[i].cur.insert(m[i].cur.end(), d.begin(), d.begin() + r); }
+          c.label(r >= 0 ? "cxx-ok:enc.coded-push" : "cxx-refused:enc"); verify("push", i, r < 0);
+        } break;
+        case 1: {  // terminate the message
+          c.logf("  e%d.push(0, NULL)   [%s]", i, desc(i).c_str());
+          if (sh) { c.label("cxx-nt:write-while-shared"); c.label("cxx-enc:terminate-shared"); c.nontrivial(); }
+          ssize_t r = x.push(0, 0);
+          c.logf("    = %zd", r);
+          if (r >= 0) { m[i].msgs.push_back(m[i].cur); m[i].cur.clear(); }
+          c.label(r >= 0 ? "cxx-ok:enc.coded-finish" : "cxx-refused:enc"); verify("finish", i, r < 0);
+        } break;
+        case 2: {  // assignment: both on one buffer
+          c.logf("  e%d = e%d", i, j);
+          x = *e[j];
+          m[i] = m[j];
+          m[i].snap = snap(i);
+          c.label("cxx-ok:enc.share"); verify("assign", -1, false);
+        } break;
+        default: {  // copy construction
+          c.logf("  e%d = encode_array(e%d)", i, j);
+          encode_array *n = new encode_array(*e[j]);
+          Model keep = m[j];
+          delete e[i];
+          e[i] = n;
+          m[i] = keep;
+          m[i].snap = snap(i);
+          c.label("cxx-ok:enc.share"); verify("copy", -1, false);
+        } break;
+      }
+    }
+    inj.disarm(c);
+    for (int i = 0; i < NA; i++) {
+      c.logf("  delete e%d", i);
+      delete e[i];
+      e[i] = new encode_array(enc);
+      m[i] = Model();
+      m[i].snap = snap(i);
+      verify("delete", -1, false);
+    }
+    for (int i = 0; i < NA; i++) { delete e[i]; e[i] = 0; }
+  }
+};
+
 void run_cxx(Ctx &c) {
   // objects are abandoned when an oracle fails (see run)
   // one byte: the 24 highest values select the scenarios added later, every other value keeps its meaning (byte % 12)
   unsigned byte = (unsigned)c.range(0, 255);
-  if (byte >= 232 && byte < 240) { CxxEnc *w = new CxxEnc(c); w->run(); delete w; return; }   // round 6
+  if (byte >= 232 && byte < 240) {   // round 6: without encoder (even values); round 8: with the COBS encoder (odd values)
+    if (byte & 1) { CxxEncCoded *w = new CxxEncCoded(c); w->run(); delete w; }
+    else { CxxEnc *w = new CxxEnc(c); w->run(); delete w; }
+    return;
+  }
   if (byte >= 240) {
     if (byte & 1) { auto *w = new CxxRef<reference_array<RObj> >(c, "reference_array", sizeof(reference<RObj>)); w->run(); delete w; }
     else { auto *w = new CxxRef<item_array<RObj> >(c, "item_array", sizeof(item<RObj>)); w->run(); delete w; }
